@@ -480,6 +480,7 @@ func runC04(c *Ctx) {
 		R.Add("S.reader-window", "connection.reader", "", st, d)
 	}
 	c.everyReadParsed()
+	c.dispatchAll()
 	R.Require("T.frame", 1, "")
 	R.Require("T.rest", 3, "")
 	R.Require("T.stop", 2, "")
@@ -745,4 +746,109 @@ func (c *Ctx) everyReadParsed() {
 		R.Fatal("S.every-read: no Read followed by a hand-over to the extractor found in the reader family")
 	}
 	R.Require("S.every-read", 1, "")
+}
+
+// dispatchAll: the frames of one read are handed on one by one; a frame that is not supported, is a re-request or is
+// refused may skip the rest of *its own* handling, but the loop over the batch is left early only when the connection
+// ends (a return). Leaving it with `break` drops the remaining frames of a coalesced read, so the number of messages
+// depends on how the stream was cut into reads.
+func (c *Ctx) dispatchAll() {
+	R := c.R
+	R.Rules["S.dispatch-all"] = "the reader's loop over the messages extracted from one read is left before its end only on paths that end the connection (no path from such an exit leads back to the next Read): every frame of a coalesced read is dispatched"
+	reader := c.P.Method("service", "connection", "reader")
+	if reader == nil {
+		R.Fatal("anchor connection.reader not found")
+		return
+	}
+	n := 0
+	for _, f := range c.familyOf(reader) {
+		var readBlocks []*ssa.BasicBlock
+		for _, b := range f.Blocks {
+			for _, ins := range b.Instrs {
+				if call, isC := ins.(*ssa.Call); isC {
+					if nm, _ := callMethodName(call); nm == "Read" {
+						readBlocks = append(readBlocks, b)
+					}
+				}
+			}
+		}
+		if len(readBlocks) == 0 {
+			continue
+		}
+		loops := loopsByHeader(f)
+		for _, b := range f.Blocks {
+			for _, ins := range b.Instrs {
+				s, isS := ins.(*ssa.Send)
+				if !isS {
+					continue
+				}
+				if _, fld, ok := fieldLoad(s.Chan); !ok || fld != "msgChan" {
+					continue
+				}
+				// the innermost loop around the hand-over that does not contain the Read: the loop over the batch
+				var batch map[*ssa.BasicBlock]bool
+				var head *ssa.BasicBlock
+				for h, l := range loops {
+					if !l[b] {
+						continue
+					}
+					hasRead := false
+					for _, rb := range readBlocks {
+						if l[rb] {
+							hasRead = true
+						}
+					}
+					if !hasRead && (batch == nil || len(l) < len(batch)) {
+						batch, head = l, h
+					}
+				}
+				if batch == nil {
+					continue
+				}
+				n++
+				reachesRead := func(from *ssa.BasicBlock) bool {
+					seen := map[*ssa.BasicBlock]bool{}
+					var w func(x *ssa.BasicBlock) bool
+					w = func(x *ssa.BasicBlock) bool {
+						if seen[x] {
+							return false
+						}
+						seen[x] = true
+						for _, rb := range readBlocks {
+							if x == rb {
+								return true
+							}
+						}
+						for _, su := range x.Succs {
+							if w(su) {
+								return true
+							}
+						}
+						return false
+					}
+					return w(from)
+				}
+				st, d := report.Discharged, ""
+				for lb := range batch {
+					if lb == head {
+						continue
+					}
+					for _, su := range lb.Succs {
+						if !batch[su] && reachesRead(su) {
+							pos := c.P.RelPos(lb.Instrs[len(lb.Instrs)-1].Pos())
+							for k := len(lb.Instrs) - 1; k >= 0 && pos == "?"; k-- {
+								pos = c.P.RelPos(lb.Instrs[k].Pos())
+							}
+							st, d = report.Violated, "the loop over the messages of one read is left early near "+pos+" and the reader goes on to the next Read: the remaining frames of a coalesced read are dropped (how many messages a stream yields then depends on its segmentation)"
+						}
+					}
+				}
+				R.Add("S.dispatch-all", shortFn(f)+" / "+c.constructOf(f, s), c.P.RelPos(s.Pos()), st, d)
+			}
+		}
+	}
+	if n == 0 {
+		R.Fatal("S.dispatch-all: no loop around the hand-over to the writer found in the reader family (anchor)")
+	}
+	R.Require("S.dispatch-all", 1, "")
 }
